@@ -30,7 +30,6 @@ import (
 	"regexp"
 	"strconv"
 	"strings"
-	"unicode"
 )
 
 type HasArgument interface {
@@ -144,17 +143,23 @@ func (a *IdArg) Parse() error {
 				" not allowed to start with xml: " + str)
 		}
 	}
-	var r rune = rune(str[0])
-	if !(r == '_' || unicode.IsLetter(r)) {
+	// ALPHA and DIGIT are ASCII only; checking bytes with the unicode
+	// tables would accept the bytes of multi-byte characters.
+	if !(str[0] == '_' || isASCIIAlpha(str[0])) {
 		return ErrInval
 	}
 	for i := 1; i < len(str); i++ {
-		var r rune = rune(str[i])
-		if !isAlphaNumeric(r) && r != '-' && r != '.' {
+		c := str[i]
+		if !isASCIIAlpha(c) && !(c >= '0' && c <= '9') &&
+			c != '_' && c != '-' && c != '.' {
 			return ErrInval
 		}
 	}
 	return nil
+}
+
+func isASCIIAlpha(c byte) bool {
+	return (c >= 'a' && c <= 'z') || (c >= 'A' && c <= 'Z')
 }
 
 type PrefixArg struct {
